@@ -43,8 +43,9 @@ PYAGREE = {
     'C08': ['MiscTimer', 'LayerTx'],
     'C09': ['AddressFns', 'AddressInit', 'LayerSend'],
     'C12': ['LayerTxHelpers', 'LayerQueues', 'Exec2Bridge', 'LayerSend'],
+    'C13': ['PyCan'],
     'C14': ['LayerQueues', 'Exec2Bridge'],
-    'C10': ['LayerProcess'],
+    'C10': ['LayerProcess', 'LayerWhole'],
     'C15': ['LayerTxHelpers'],
     'C16': ['AddressValidate', 'AddressInit'],
     'C17': ['LayerTxHelpers', 'LayerTx'],
